@@ -11,6 +11,7 @@ import Gts.Lemmas.Record
 import Gts.Props.C02
 import Gts.Lemmas.MarksInv
 import Gts.Lemmas.MarkGuardOps
+import Gts.Lemmas.MarkGuardEmbed
 namespace Gts.C10
 open Gts Loc
 
@@ -283,6 +284,16 @@ theorem embed_then_delete_marks_partial (l : Loc) (i n : Int) (hw : wf l = true)
     outerMarks (expand (expand l i n) i (-n)) = outerMarks l :=
   outerMarks_of_marks (embed_then_delete_marks_aux l i n hw hn g1 g2)
 
+/-- … under the hypotheses of `embed_then_delete_den_partial` plus duplicate-freeness -/
+theorem embed_then_delete_marks_nodup_partial (l : Loc) (i n : Int) (hw : wf l = true) (hn : 0 < n)
+    (h1 : expandAbs l i n = false) (h2 : expandAbs (expand l i n) i (-n) = false)
+    (hnd : (den l).Nodup) :
+    outerMarks (expand (expand l i n) i (-n)) = outerMarks l :=
+  embed_then_delete_marks_partial l i n hw hn
+    (expandInsMarkAbs_of_nodup l i n hw (by omega) h1 hnd)
+    (expandDelMarkAbs_of_nodup (expand l i n) i n (expand_ins l i n hw (by omega)).2 hn h2
+      (expand_ins_nodup l i n hw (by omega) h1 hnd))
+
 /-- non-vacuity: a complement-strand join with both outer markers whose first part is split by
 the insertion -/
 example : wf (compl (joined [ranged 2 5 true false, point 7, ranged 9 12 false true])) = true ∧
@@ -293,6 +304,8 @@ example : wf (compl (joined [ranged 2 5 true false, point 7, ranged 9 12 false t
     outerMarks (compl (joined [ranged 2 5 true false, point 7, ranged 9 12 false true])) = (true, true) ∧
     shiftAbs (compl (joined [ranged 2 5 true false, point 7, ranged 9 12 false true])) 4 3 = false ∧
     expandAbs (shift (compl (joined [ranged 2 5 true false, point 7, ranged 9 12 false true])) 4 3) 4 (-3) = false ∧
+    expandAbs (compl (joined [ranged 2 5 true false, point 7, ranged 9 12 false true])) 4 3 = false ∧
+    expandAbs (expand (compl (joined [ranged 2 5 true false, point 7, ranged 9 12 false true])) 4 3) 4 (-3) = false ∧
     (den (compl (joined [ranged 2 5 true false, point 7, ranged 9 12 false true]))).Nodup := by
   decide
 
